@@ -364,7 +364,7 @@ func Snapshot(root string) (map[string]Snap, error) {
 		case "chr", "blk":
 			s.Rdev = uint64(st.Rdev)
 		}
-		if s.Type == "file" || s.Type == "dir" {
+		{ // every type: root can put trusted.* attributes on symlinks and device nodes as well
 			keys, err := xattr.LList(p)
 			if err == nil && len(keys) > 0 {
 				s.Xattrs = map[string]string{}
